@@ -1,3 +1,4 @@
+use rusty_common::AtPos;
 use rusty_pc::and::KeepRightCombiner;
 use rusty_pc::*;
 
@@ -6,7 +7,7 @@ use crate::core::name::identifier;
 use crate::expr::{csv_expressions_first_guarded, expression_pos_p, property};
 use crate::input::StringView;
 use crate::pc_specific::whitespace_ignoring;
-use crate::tokens::equal_sign_ws;
+use crate::tokens::{comma_ws, equal_sign_ws};
 use crate::*;
 
 // SubCall                  ::= SubCallNoArgs | SubCallArgsNoParenthesis | SubCallArgsParenthesis
@@ -76,8 +77,29 @@ fn plain_sub_call_or_assignment_p()
                     let (bare_name, opt_args) = expr_to_bare_name_args(name_expr);
                     match opt_args {
                         Some(args) => {
-                            supplier(move || Statement::sub_call(bare_name.clone(), args.clone()))
+                            // `Name(x)` without CALL is `Name (x)`: one argument in parenthesis,
+                            // that is an expression, passed by value
+                            // and further arguments may follow: `Name(x), y` is `Name (x), y`
+                            let single = args.len() == 1;
+                            let args = parenthesize_single_argument(args);
+                            if single {
+                                comma_ws()
+                                    .and_keep_right(
+                                        expression_pos_p().or_expected("expression after comma"),
+                                    )
+                                    .zero_or_more()
+                                    .map(move |more_args: Expressions| {
+                                        let mut all_args = args.clone();
+                                        all_args.extend(more_args);
+                                        Statement::sub_call(bare_name.clone(), all_args)
+                                    })
+                                    .boxed()
+                            } else {
+                                supplier(move || {
+                                    Statement::sub_call(bare_name.clone(), args.clone())
+                                })
                                 .boxed()
+                            }
                         }
                         _ => csv_expressions_first_guarded()
                             .or_default()
@@ -96,6 +118,16 @@ fn name_and_opt_eq_sign()
     property::parser()
         .map(|p| p.element)
         .and_tuple(equal_sign_ws().to_option().map(|opt| opt.is_some()))
+}
+
+fn parenthesize_single_argument(mut args: Expressions) -> Expressions {
+    if args.len() == 1 {
+        let arg = args.remove(0);
+        let pos = arg.pos;
+        vec![Expression::Parenthesis(Box::new(arg)).at_pos(pos)]
+    } else {
+        args
+    }
 }
 
 /// Converts a name expression into a sub bare name and optionally sub arguments.
